@@ -257,7 +257,18 @@ pub fn dupmode(tier: Tier, w: &Arc<World>) -> Scn {
         }
     }
     let max_blocks = if n > 3 { 14 } else { 40 };
-    let len = draw_len(&d, oc.b, oc.w, max_blocks, 1 << 18);
+    let mut len = draw_len(&d, oc.b, oc.w, max_blocks, 1 << 18);
+    let mut wrap_run = false;
+    if upload && (1..=2).contains(&n) && d.chance("swarm.c16.wrap_run", 1, if tier == Tier::Thorough { 400 } else { 1200 }) {
+        // the acknowledgement of the 65536th block is ACK(0): it is an acknowledgement of a data block too
+        let wz = d.pick("swarm.c16.wrap.windowsize", &[128u64, 16, 4096, 64]);
+        oc.opts = vec![("blksize".into(), "8".into()), ("windowsize".into(), wz.to_string())];
+        oc.b = 8;
+        oc.w = wz;
+        oc.tmo_s = 5;
+        len = (65536 + wz as usize) * 8 + 3;
+        wrap_run = true;
+    }
     let data = Arc::new(content(len, 9));
     let path = dir.join("data.bin");
     if !upload {
@@ -267,6 +278,10 @@ pub fn dupmode(tier: Tier, w: &Arc<World>) -> Scn {
     xc.opts = oc.opts.clone();
     xc.eager_reack = !d.chance("swarm.reader.lazy_reack", 1, 4);
     xc.per_block_ack = d.chance("swarm.reader.per_block_ack", 1, 4);
+    if wrap_run {
+        xc.eager_reack = false;
+        xc.per_block_ack = false;
+    }
     xc.resend_request = false;
     xc.timeout_ns = oc.tmo_s * SEC * 3;
     if upload && d.chance("swarm.close_when_done", 1, 3) {
@@ -292,7 +307,7 @@ pub fn dupmode(tier: Tier, w: &Arc<World>) -> Scn {
     w.add_monitor(Box::new(XferMon::new("C16", Rules { c01: true, c02: true, c04: true, c08: true, ..Default::default() }, vec![spec], n)));
     boot_server(w, &srv).expect("server config");
     w.start_peer_at(peer, 10 * MS);
-    Scn { sandbox, desc, step_cap: 3_000_000, time_cap: 100_000_000 * SEC, faultfree }
+    Scn { sandbox, desc, step_cap: if wrap_run { 12_000_000 } else { 3_000_000 }, time_cap: 100_000_000 * SEC, faultfree }
 }
 
 /// CsMon relabelled for C16 (content identical on both sides with duplicates in play).
